@@ -104,13 +104,25 @@ def resolve_join(function_body, params: Dict, mappings: Dict[str, Dict], conditi
     return resolved_delimiter.join(str(e) for e in resolved_list)
 
 
+def _mapping_get(mapping: Dict, key, default=None):
+    # Keys reach Fn::FindInMap as resolved text, in which the spelling of a boolean has been normalised ("True" -> "true").
+    # A key written "True" / "FALSE" in the Mappings section must still be found.
+    if key in mapping:
+        return mapping[key]
+    if key in ("true", "false"):
+        for candidate, value in mapping.items():
+            if isinstance(candidate, str) and candidate.lower() == key:
+                return value
+    return default
+
+
 def resolve_find_in_map(function_body, params: Dict, mappings: Dict[str, Dict], conditions: Dict[str, bool]):
     map_name, top_level_key, second_level_key = function_body
     map_name = resolve(map_name, params, mappings, conditions)
     top_level_key = resolve(top_level_key, params, mappings, conditions)
     second_level_key = resolve(second_level_key, params, mappings, conditions)
 
-    resolved_mapping = mappings.get(map_name, {}).get(top_level_key, {}).get(second_level_key)
+    resolved_mapping = _mapping_get(_mapping_get(mappings.get(map_name, {}), top_level_key, {}), second_level_key)
     if resolved_mapping is not None:
         # a copy: the resolved model must not share a list / dict leaf with the Mappings of the model being resolved
         return deepcopy(resolved_mapping)
